@@ -97,12 +97,20 @@ def run_harness(src_dir, timeout=240):
     b = subprocess.run(['cargo', 'test', '-p', 'swiftness_stark', '--offline', '--no-run'], cwd=src_dir, env=env, capture_output=True, text=True)
     if b.returncode != 0:
         return 'build-failed: ' + ' | '.join([l for l in b.stderr.split('\n') if l.startswith('error')][:3]), []
+    # own process group: on a timeout the test binary (a grandchild that may loop forever on the tree under check) is killed too
+    import signal
+    pr = subprocess.Popen(['cargo', 'test', '-p', 'swiftness_stark', '--offline', 'witness_diff_all', '--', '--nocapture', '--test-threads', '1'],
+                          cwd=src_dir, env=env, stdout=subprocess.PIPE, stderr=subprocess.PIPE, text=True, start_new_session=True)
     try:
-        r = subprocess.run(['cargo', 'test', '-p', 'swiftness_stark', '--offline', 'witness_diff_all', '--', '--nocapture', '--test-threads', '1'],
-                           cwd=src_dir, env=env, capture_output=True, text=True, timeout=timeout)
-        out, status = r.stdout, ('ok' if r.returncode == 0 else 'aborted rc=%d' % r.returncode)
-    except subprocess.TimeoutExpired as e:
-        out = e.stdout.decode() if isinstance(e.stdout, bytes) else (e.stdout or '')
+        out, _err = pr.communicate(timeout=timeout)
+        status = 'ok' if pr.returncode == 0 else 'aborted rc=%d' % pr.returncode
+    except subprocess.TimeoutExpired:
+        try:
+            os.killpg(pr.pid, signal.SIGKILL)
+        except OSError:
+            pass
+        out, _err = pr.communicate()
+        out = out or ''
         status = 'timeout after %ds' % timeout
     return status, [l for l in out.split('\n') if l.startswith('W|') or l.startswith('B|')]
 
